@@ -59,6 +59,8 @@ def _flatten(a):
     for c in a.children():
       out.extend(_flatten(c))
     return out
+  if z3.is_implies(a) and z3.is_true(a.arg(0)):
+    return _flatten(a.arg(1))
   return [a]
 
 
@@ -408,62 +410,323 @@ def cone_of_influence(assumptions, goal):
   return [c for (ss, c), k in zip(syms, keep) if k]
 
 
-def check(assumptions, goal, timeout_ms=10000, seed=0, want_model=True, backends=("z3api", "z3old", "cvc5"), cone=True, sat_first=False):
-  """returns dict(status, backend, time_s, model?)
+def local_cone(assumptions, goal):
+  """A finer relevance filter than cone_of_influence: connectivity is followed only through GENERATED symbols
+  (fresh results of calls / normalisations / loop havoc -- names with '!' or '@' -- and applied functions such as
+  sqrt or arrays), not through the function's plain parameters, which nearly every fact mentions. Kept: facts
+  about parameters only, and facts whose generated symbols are all connected to the goal. A proof from this
+  subset of the hypotheses is a proof; a counter-model of it decides nothing (the caller then uses the full cone)."""
+  cache = {}
+  conj = []
+  for a in assumptions:
+    conj.extend(_flatten(a))
 
-  Portfolio, in this order, each answer `sat`/`unsat` being final: z3 5.1 (API) with its default arithmetic solver, the
-  same with the simplex-based one (arith.solver=2: decides in milliseconds some div/mod-heavy integer queries on which
-  the default needs 2-9 s depending on the seed, and vice versa), then /usr/bin/z3 4.8.12 and cvc5 on the SMT-LIB text
-  with three times the budget (they are only reached after two time-outs, and a generous budget there is what keeps a
-  verdict from flipping to `unknown` when all cores are busy). sat_first (vacuity canaries: a model is expected)
-  starts with a short API attempt followed by z3 4.8."""
+  def gen(t):
+    out = set()
+    stack = [t]
+    seen = set()
+    while stack:
+      x = stack.pop()
+      if x.get_id() in seen:
+        continue
+      seen.add(x.get_id())
+      if z3.is_app(x):
+        d = x.decl()
+        if d.kind() == z3.Z3_OP_UNINTERPRETED:
+          n = d.name()
+          if x.num_args() > 0:
+            out.add(f"{n}#{x.get_id()}")  # one particular application (sqrt of this term, this array cell)
+          elif "!" in n or "@" in n:
+            out.add(n)
+        stack.extend(x.children())
+      elif z3.is_quantifier(x):
+        stack.append(x.body())
+    return out
+
+  gs = [(gen(c), c) for c in conj]
+  live = set(gen(goal))
+  keep = [not g for g, _ in gs]
+  changed = True
+  while changed:
+    changed = False
+    for i, (g, c) in enumerate(gs):
+      if not keep[i] and g & live:
+        keep[i] = True
+        if not g <= live:
+          live |= g
+        changed = True
+  return [c for (g, c), k in zip(gs, keep) if k]
+
+
+def eliminate_defined(assumptions, goal, rounds=6):
+  """Hypotheses `c == t` (or `t == c`) where c is a GENERATED constant (a fresh call result / normalisation
+  component, name with '!') that does not occur in t are used as definitions: c is replaced by t everywhere and the
+  equation dropped (z3's solve-eqs, done here so that it also happens in front of the nonlinear core).
+  Equivalence-preserving for validity; parameters are never eliminated, so counter-models keep their inputs."""
+  A = list(assumptions)
+  cache = {}
+  for _ in range(rounds):
+    sub = None
+    for i, a in enumerate(A):
+      if z3.is_eq(a) and a.num_args() == 2:
+        for c, t in ((a.arg(0), a.arg(1)), (a.arg(1), a.arg(0))):
+          if z3.is_const(c) and c.decl().kind() == z3.Z3_OP_UNINTERPRETED and "!" in c.decl().name() and c.decl().name() not in _symbols(t, cache):
+            sub = (i, c, t)
+            break
+      if sub:
+        break
+    if not sub:
+      break
+    i, c, t = sub
+    A = [z3.substitute(x, (c, t)) for j, x in enumerate(A) if j != i]
+    goal = z3.substitute(goal, (c, t))
+  return A, goal
+
+
+PORTFOLIO = [(0, {}), (1, {"arith.solver": 2}), (7, {}), (3, {"arith.solver": 2})]
+
+
+def _solve_once(hyps, goal, timeout_ms, seed=0, cfg=None, want_model=True):
+  """one solver run in a FRESH z3 context (translated copy): term numbering, and with it the nonlinear solver's
+  variable order and run time, depend on the query alone and not on what this process built before (measured: the
+  same obligation took 0.8 s in a fresh process and timed out twice at 30 s after a long model search had run in
+  the same context)"""
+  s = z3.Solver()
+  for a in hyps:
+    s.add(a)
+  s.add(z3.Not(goal))
+  sc = s.translate(z3.Context())
+  sc.set("timeout", int(timeout_ms))
+  sc.set("random_seed", int(seed) % (2**31))
+  for k, v in (cfg or {}).items():
+    sc.set(k, v)
+  r = sc.check()
+  if r == z3.unsat:
+    return {"status": "unsat"}
+  if r == z3.sat:
+    res = {"status": "sat"}
+    if want_model:
+      m = sc.model()
+      res["model"] = _model_to_dict(m)
+      try:
+        res["_model_obj"] = m.translate(z3.main_ctx())
+      except Exception:
+        res["_model_obj"] = None
+    return res
+  return {"status": "unknown", "reason": sc.reason_unknown()}
+
+
+def portfolio_check(queries, timeout_ms, seed=0, want_model=True):
+  """queries: list of (hyps, goal, tag, sat_counts). Every query is an equivalent or WEAKER-hypotheses form of the same
+  obligation (so `unsat` from any of them is a proof; `sat` is only accepted from those marked sat_counts, which are
+  equivalent to the full obligation). Each (query, config) pair runs in its own fresh z3 context and thread; the first
+  decisive answer wins and the others are interrupted. Nonlinear real queries have heavy-tailed run times (the same
+  obligation: 0.1 s or > 60 s depending on seed, arithmetic core, term numbering and on whether definitions were
+  eliminated); restarts over such variations are the standard remedy."""
+  import queue
+  import threading
+
+  members = []
+  for hyps, goal, tag, sat_ok in queries:
+    base = z3.Solver()
+    for a in hyps:
+      base.add(a)
+    base.add(z3.Not(goal))
+    for sd, cfg in PORTFOLIO:
+      ctx = z3.Context()
+      sc = base.translate(ctx)  # sequentially, in this thread: translation reads the caller's context
+      sc.set("timeout", int(timeout_ms))
+      sc.set("random_seed", (int(seed) + sd) % (2**31))
+      for k, v in cfg.items():
+        sc.set(k, v)
+      members.append((ctx, sc, f"{tag} seed+{sd}" + ("" if not cfg else "," + ",".join(f"{k}={v}" for k, v in cfg.items())), sat_ok))
+  q = queue.Queue()
+
+  def work(i):
+    ctx, sc, _, sat_ok = members[i]
+    try:
+      r = sc.check()
+      res = {"status": "unsat" if r == z3.unsat else ("sat" if r == z3.sat else "unknown")}
+      if r == z3.sat and not sat_ok:
+        res = {"status": "unknown", "reason": "counter-model of a weaker-hypotheses variant (inconclusive)"}
+      elif r == z3.sat and want_model:
+        try:
+          res["model"] = _model_to_dict(sc.model())
+        except Exception:
+          res["model"] = {}
+      if r == z3.unknown:
+        res["reason"] = sc.reason_unknown()
+    except Exception as e:  # interrupted
+      res = {"status": "unknown", "reason": str(e)[:100]}
+    q.put((i, res))
+
   t0 = time.time()
-  if cone:
-    assumptions = cone_of_influence(assumptions, goal)
-  configs = [("z3-5.1(api)", {}, timeout_ms), ("z3-5.1(api, arith.solver=2)", {"arith.solver": 2}, timeout_ms)]
-  if sat_first:
-    # model search is heavy-tailed in the API (0.05 s .. > 6 s on the same query, by seed) while z3 4.8 answers the
-    # same queries in under a second: short API attempt, then z3 4.8 with a generous budget, then the full portfolio
-    configs = [("z3-5.1(api)", {}, min(timeout_ms, 2000)), ("z3old", None, max(3 * timeout_ms, 30000))] + configs
-  if "z3api" not in backends:
-    configs = []
-  s = None
+  ths = [threading.Thread(target=work, args=(i,), daemon=True) for i in range(len(members))]
+  for t in ths:
+    t.start()
+  winner = None
   reason = None
-  for name, cfg, tmo in configs:
-    if cfg is None:
-      rr = run_external(name, s.to_smt2(), tmo)
-      if rr["status"] in ("unsat", "sat"):
-        rr["time_s"] = time.time() - t0
-        return rr
-      continue
+  for _ in range(len(members)):
+    try:
+      i, res = q.get(timeout=timeout_ms / 1000.0 + 10)
+    except queue.Empty:
+      break
+    if res["status"] in ("sat", "unsat"):
+      winner = (i, res)
+      break
+    reason = reason or res.get("reason")
+  for ctx, sc, _, _ in members:
+    try:
+      ctx.interrupt()
+    except Exception:
+      pass
+  for t in ths:
+    t.join(timeout=5)
+  if winner is None:
+    return {"status": "unknown", "backend": "z3-5.1(api) portfolio", "time_s": time.time() - t0, "reason": reason}
+  i, res = winner
+  res["backend"] = f"z3-5.1(api) portfolio [{members[i][2]}]"
+  res["time_s"] = time.time() - t0
+  return res
+
+
+def propagate_literals(assumptions, goal, rounds=3):
+  """Hypotheses that are literals (an atom p, or Not(p)) are substituted as true / false into the other
+  hypotheses and the goal, which are then simplified (if-then-else terms on a decided condition collapse to one
+  arm). Under the hypothesis p this is an equivalence, so verdicts are unchanged; it only spares the solver
+  the case split. The literals themselves are kept."""
+  A = [a for a in assumptions]
+  for _ in range(rounds):
+    pairs = []
+    lits = set()
+    for a in A:
+      if not z3.is_bool(a) or z3.is_quantifier(a):
+        continue
+      if z3.is_not(a):
+        p, v = a.arg(0), z3.BoolVal(False)
+      else:
+        p, v = a, z3.BoolVal(True)
+      if z3.is_true(p) or z3.is_false(p) or z3.is_and(p) or z3.is_or(p) or z3.is_implies(p) or z3.is_quantifier(p):
+        continue
+      if z3.is_app(p) and p.decl().kind() in (z3.Z3_OP_LE, z3.Z3_OP_LT, z3.Z3_OP_GE, z3.Z3_OP_GT, z3.Z3_OP_UNINTERPRETED):
+        pairs.append((p, v))
+        lits.add(a.get_id())
+        k = p.decl().kind()
+        if k in (z3.Z3_OP_LE, z3.Z3_OP_LT, z3.Z3_OP_GE, z3.Z3_OP_GT) and p.num_args() == 2:
+          # the same comparison written the other way round, and its complement
+          x, y = p.arg(0), p.arg(1)
+          nv = z3.BoolVal(not z3.is_true(v))
+          same, comp = {
+            z3.Z3_OP_LE: ([y >= x], [x > y, y < x]),
+            z3.Z3_OP_GE: ([y <= x], [x < y, y > x]),
+            z3.Z3_OP_LT: ([y > x], [x >= y, y <= x]),
+            z3.Z3_OP_GT: ([y < x], [x <= y, y >= x]),
+          }[k]
+          pairs.extend((q, v) for q in same)
+          pairs.extend((q, nv) for q in comp)
+    if not pairs:
+      break
+    changed = False
+    out = []
+    for a in A:
+      if a.get_id() in lits:
+        out.append(a)
+        continue
+      b = z3.substitute(a, *pairs)
+      if not b.eq(a):
+        b = z3.simplify(b)
+        changed = True
+      out.append(b)
+    g2 = z3.substitute(goal, *pairs)
+    if not g2.eq(goal):
+      goal = z3.simplify(g2)
+      changed = True
+    A = out
+    if not changed:
+      break
+  return A, goal
+
+
+def check(assumptions, goal, timeout_ms=10000, seed=0, want_model=True, backends=("z3api", "z3old", "cvc5"), cone=True, sat_first=False):
+  """returns dict(status, backend, time_s, model?). Every `sat` / `unsat` answer is final.
+
+  Preprocessing (validity-preserving): literal hypotheses are propagated into if-then-else conditions; two VARIANTS of
+  the query are kept, with and without elimination of generated constants defined by an equation (each helps on some
+  nonlinear queries and hurts on others); for each variant the cone of influence, and the *local cone* (connectivity
+  through generated symbols only: a proof from fewer hypotheses is a proof, a counter-model there is ignored).
+  Phase 1: one short run (fresh context) per variant and cone. Phase 2: all of them concurrently, several seeds /
+  arithmetic cores each (portfolio_check). Phase 3: /usr/bin/z3 4.8.12 and cvc5 on the SMT-LIB text with three times
+  the budget. sat_first (vacuity canaries: a model is expected) starts with a short API attempt and z3 4.8."""
+  t0 = time.time()
+  queries = []  # (hyps, goal, tag, sat_counts)
+  if cone:
+    A, g = list(assumptions), goal
+    try:
+      flat = []
+      for a in A:
+        flat.extend(_flatten(a))
+      A, g = propagate_literals(flat, g)
+      flat = []
+      for a in A:
+        flat.extend(_flatten(a))
+      A = flat
+    except z3.Z3Exception:
+      A, g = list(assumptions), goal
+    variants = [(A, g, "")]
+    if not sat_first:
+      try:
+        A2, g2 = eliminate_defined(A, g, rounds=40)
+        if len(A2) != len(A):
+          variants.append((A2, g2, "definitions eliminated, "))
+      except z3.Z3Exception:
+        pass
+    for Av, gv, vt in variants:
+      full = cone_of_influence(Av, gv)
+      if not sat_first:
+        loc = local_cone(full, gv)
+        if len(loc) < len(full):
+          queries.append((loc, gv, f"{vt}{len(loc)} of {len(full)} hypotheses: those connected to the goal through generated symbols", False))
+      queries.append((full, gv, f"{vt}cone of influence", True))
+    assumptions, goal = [q for q in queries if q[3]][0][:2]
+  else:
+    queries.append((list(assumptions), goal, "all hypotheses", True))
+  reason = None
+  api = "z3api" in backends
+  if api and sat_first:
+    r = _solve_once(assumptions, goal, min(timeout_ms, 2000), seed, None, want_model)
+    if r["status"] in ("sat", "unsat"):
+      r.update(backend="z3-5.1(api)", time_s=time.time() - t0)
+      return r
     s = z3.Solver()
-    s.set("timeout", int(tmo))
-    s.set("random_seed", int(seed) % (2**31))
-    for k, v in cfg.items():
-      s.set(k, v)
     for a in assumptions:
       s.add(a)
     s.add(z3.Not(goal))
-    r = s.check()
-    dt = time.time() - t0
-    if r == z3.unsat:
-      return {"status": "unsat", "backend": name, "time_s": dt}
-    if r == z3.sat:
-      res = {"status": "sat", "backend": name, "time_s": dt}
-      if want_model:
-        res["model"] = _model_to_dict(s.model())
-        res["_model_obj"] = s.model()
-      return res
-    if reason is None:
-      reason = s.reason_unknown()
+    rr = run_external("z3old", s.to_smt2(), max(3 * timeout_ms, 30000))
+    if rr["status"] in ("unsat", "sat"):
+      rr["time_s"] = time.time() - t0
+      return rr
+  if api:
+    # phase 1: short single runs
+    for hyps, gq, tag, sat_ok in queries:
+      r = _solve_once(hyps, gq, min(timeout_ms, 3000), seed, None, want_model and sat_ok)
+      if r["status"] == "unsat" or (r["status"] == "sat" and sat_ok):
+        r.update(backend=f"z3-5.1(api) [{tag}]", time_s=time.time() - t0)
+        return r
+      if r["status"] == "unknown":
+        reason = reason or r.get("reason")
     if tuple(backends) == ("z3api",):
-      break  # callers that ask for the API only use it as one cheap attempt among several
-  if s is None:
-    s = z3.Solver()
-    for a in assumptions:
-      s.add(a)
-    s.add(z3.Not(goal))
-  # unknown: try the other back ends on the SMT-LIB text
+      return {"status": "unknown", "backend": "z3-5.1(api)", "time_s": time.time() - t0, "reason": reason}
+    # phase 2: everything concurrently
+    rr = portfolio_check(queries, timeout_ms, seed=seed, want_model=want_model)
+    if rr["status"] in ("unsat", "sat"):
+      rr["time_s"] = time.time() - t0
+      return rr
+    reason = reason or rr.get("reason")
+  # phase 3: the other back ends on the SMT-LIB text of the full query
+  s = z3.Solver()
+  for a in assumptions:
+    s.add(a)
+  s.add(z3.Not(goal))
   smt2 = s.to_smt2()
   for be in backends:
     if be == "z3api":
